@@ -2214,6 +2214,11 @@ func (g *gen) groupBig(which string) {
 			t := strings.Repeat("x\n", nl-1) + "\n"
 			g.emit("prog", ed(t)+";linecount,0;apply,0,0,=;apply,0,2,=;lines,0,4090,4097;string,4;linesfrom,0,-2")
 			g.emit("prog", g.editStep(strings.Repeat("x\n", nl), rosed.Options{NoTrailingLineSeparators: true})+";linecount,0;apply,0,0,=;indent,0,1,=")
+			// every line aligned (seeded change C13n: one goroutine per line above 2048 lines), and the call's
+			// trailing-separator policy different from the receiver's (C17m: a long path that reads the receiver's)
+			g.emit("prog", ed(strings.Repeat(" ab\ncd \n", nl/2))+";align,0,1,5,=;align,0,2,5,=;align,0,3,6,=")
+			g.emit("prog", g.editStep(strings.Repeat("x\n", nl), rosed.Options{NoTrailingLineSeparators: true})+
+				";apply,0,0,"+encOpts(rosed.Options{})+";indent,0,1,"+encOpts(rosed.Options{})+";withopts,0,"+encOpts(rosed.Options{})+";apply,3,0,=;indent,3,1,=")
 		}
 		// more than 128 (and 256) paragraphs, the one at a multiple of 64 / 128 ending in a line separator
 		po := rosed.Options{PreserveParagraphs: true}
